@@ -14,6 +14,7 @@ from harness import checklib  # noqa: E402
 
 def run(c):
     observer_design.run_design(c, "C04")
+    observer_design.run_replay(c, "C04")
     b = 2 if c.thorough else 1
     fams = [("delivery", oe.fam_delivery(), b), ("removal", oe.fam_removal()[:6] + oe.fam_reentrant_unschedule(), b)]
     oe.run_families(c, "C04", fams, bound=b, random_n=3000 if c.thorough else 300)
